@@ -1,11 +1,11 @@
 package main
 
 import (
-	"golang.org/x/tools/go/packages"
-	"go/token"
 	"fmt"
 	"go/ast"
+	"go/token"
 	"go/types"
+	"golang.org/x/tools/go/packages"
 	"strings"
 )
 
